@@ -407,6 +407,12 @@ def rule_readers_time(ck):
         fld = 'self.start_time' if q.endswith('start_epoch') else 'self.end_time'
         good = isinstance(r[0].value, ast.Call) and P.canon(f, r[0].value.func) == T + 'datetime_to_utc_epoch' and u(r[0].value.args[0]) == fld
         (o.ok() if good else o.fail('%s is not datetime_to_utc_epoch(%s)' % (f.short, fld)))
+        from .common import memoising_decorators
+        memo = memoising_decorators(P, f)
+        oo = ck.ob('C15-D1.live', f, 'converted from %s at every access' % fld, f.node)
+        (oo.fail('%s is decorated with `%s`: the epoch is converted once and kept, so after %s is assigned again the epoch no longer is '
+                 'datetime_to_utc_epoch(%s) and epoch_time_to_utc_datetime(%s) no longer returns it' % (f.short, u(memo[0]), fld, fld, f.short.split('.')[-1]))
+         if memo or f.kind != 'property' else oo.ok('plain property'))
     f = P.func('csep.core.catalogs.AbstractBaseCatalog.get_datetimes')
     r = [x for x in returns(f) if x.value is not None]
     o = ck.ob('C15-D1.get_datetimes', f, r[0].value, r[0])
